@@ -192,7 +192,36 @@ def validate(chk, events, starts, logs, label):
     return None
 
 
+def directed_recv(sc, plan):
+    """the receiving side of the same family: the client has read K of the L bytes of a reply when the connection ends; what it reads on the next
+    connection starts a new PDU -- nothing of the half-received one may survive (TcpStream.tla: a new connection starts with an empty input buffer)"""
+    _, L, K, fault = plan
+    sc.add(3); sc.dispatch()
+    if not (sc.s.conn_open and sc.peer_open):
+        return
+    b = pdu_bytes(sc.rng, L)
+    sc.pdus.setdefault(sc.s.conn_no, []).append(b)
+    sc.s.cmd("CHUNKS %d 0" % K)             # K bytes arrive, then nothing more for now
+    sc.s.cmd("S2C " + b.hex()); sc.ev.append(dict(e="Srv", len=L))
+    sc.dispatch()
+    if fault in ("closed", "reset"):
+        sc.s.cmd("PEERCLOSE" if fault == "closed" else "PEERRESET"); sc.peer_open = False
+        sc.ev.append(dict(e="Peer", how=fault))
+    else:
+        sc.s.cmd("POLL " + fault)
+    sc.s.cmd("CHUNKS")
+    sc.dispatch()
+    sc.s.cmd("POLL ready")
+    sc.add(4)                               # the next request opens a new connection; its reply arrives whole
+    sc.dispatch()
+    sc.srv()
+    for _ in range(2):
+        sc.dispatch()
+
+
 def directed(sc, plan):
+    if plan[0] == "recv":
+        return directed_recv(sc, plan)
     if plan[2].startswith("timeout"):     # needs a finite send timeout: restart the client with one
         sc.s.cmd("TNEW 3 100000 100000"); sc.timed = True
     """the model's fault-at-every-offset family on the real client: a request of L bytes is cut after K bytes by a would-block, then the
@@ -364,6 +393,8 @@ def run(chk, tier, seed):
     total += blocking_client(chk, exe, rng, tier)
     plans = [(L, K, f, sec) for L in Ls for K in sorted({1, 2, L // 2, L - 1} - {0, L}) for f in ("closed", "reset", "hup", "err", "epipe", "timeout", "timeout-unwritable") for sec in (0, 3)]
     total += random_group(chk, exe, rng, 0, 0, "directed", plans=plans)
+    rplans = [("recv", L, K, f) for L in (5, 30, 260) for K in sorted({1, 2, 3, 4, L - 1}) for f in ("closed", "reset", "hup", "err")]
+    total += random_group(chk, exe, rng, 0, 0, "directed-recv", plans=rplans)
     for g in range(2 if tier == "quick" else 6):
         total += random_group(chk, exe, rng, nscen // 2 if tier == "quick" else nscen // 6, steps, "g%d" % g)
     chk.add(evaluations=total, distinct_nontrivial=total,
